@@ -61,3 +61,39 @@ package gtids
 //@   loop 2 invariant maps: slaveTagMap == deref(mysqlSlaveGtidSet)[slaveUUID] && masterTagMap == deref(mysqlMasterGtidSet)[slaveUUID] && has(deref(mysqlMasterGtidSet), slaveUUID) && has(deref(mysqlSlaveGtidSet), slaveUUID)
 //@   assert_at return#* C13.sb_foreign_always [C13]: (exists u uuid, t gomysql.Tag, x int :: has3(mysqlSlaveGtidSet, u, t, x) && !has3(mysqlMasterGtidSet, u, t, x) && u != masterUUID) ==> result
 //@   assert_at return#* C13.sb_subset_never [C13]: (forall u uuid, t gomysql.Tag, x int :: has3(mysqlSlaveGtidSet, u, t, x) ==> has3(mysqlMasterGtidSet, u, t, x)) ==> !result
+
+// ---- C13: set subtraction over the uuid / tag structure ---------------------------------------------------------------------
+// hasM is has3 over a map value (the local `result` of mysqlGTIDSetMinus is the map, its address is returned).
+// frameOuter / frameInner: the two argument sets (the outer map and every inner map they held at entry) are not written to.
+//@ define hasM(m gomysql.MysqlGTIDSet, u uuid, t gomysql.Tag, x int) = has(m, u) && has(m[u], t) && ivHas(m[u][t], x)
+// pickTag is a choice function on tag sets (conservative: it only names a witness of non-emptiness), used to state "this
+// inner map is not empty" without an existential the solver would have to find a witness for after every store.
+//@ ufunc pickTag(set[gomysql.Tag]) gomysql.Tag
+//@ axiom pickTag_def: forall d set[gomysql.Tag], t gomysql.Tag :: {has(d, t)} has(d, t) ==> has(d, pickTag(d))
+//@ define innerOld(g *gomysql.MysqlGTIDSet) = alive(deref(g)) && (forall u uuid :: has(deref(g), u) ==> deref(g)[u] != nil && alive(deref(g)[u]))
+//@ define frameOuter(g *gomysql.MysqlGTIDSet) = deref(g) == old(deref(g)) && content(deref(g)) == old(content(deref(g)))
+//@ define frameInner(g *gomysql.MysqlGTIDSet) = forall u uuid :: old(has(deref(g), u)) ==> content(old(deref(g)[u])) == old(content(deref(g)[u]))
+//@ func mysql/gtids.mysqlGTIDSetMinus
+//@   requires nonnil [safety]: a != nil && b != nil
+//@   requires norm [C13]: setNorm(a) && setNorm(b) && innerOld(a) && innerOld(b)
+//@   loop 1 invariant done: forall u uuid, t gomysql.Tag, x int :: hasM(result$1, u, t, x) <==> visited[u] && old(has3(a, u, t, x) && !has3(b, u, t, x))
+//@   loop 1 invariant own: (forall u uuid :: has(result$1, u) ==> visited[u] && result$1[u] != nil && newer(result$1[u]) && alive(result$1[u])) && (forall u1 uuid, u2 uuid :: has(result$1, u1) && has(result$1, u2) && u1 != u2 ==> result$1[u1] != result$1[u2])
+//@   loop 1 invariant frame_a: frameOuter(a) && frameInner(a)
+//@   loop 1 invariant frame_b: frameOuter(b) && frameInner(b)
+//@   loop 2 invariant cur: forall t gomysql.Tag, x int :: hasM(result$1, uid, t, x) <==> visited$2[t] && old(has3(a, uid, t, x) && !has3(b, uid, t, x))
+//@   loop 2 invariant others: forall u uuid, t gomysql.Tag, x int :: u != uid ==> (hasM(result$1, u, t, x) <==> visited$1[u] && old(has3(a, u, t, x) && !has3(b, u, t, x)))
+//@   loop 2 invariant own: (forall u uuid :: has(result$1, u) ==> visited$1[u] && result$1[u] != nil && newer(result$1[u]) && alive(result$1[u])) && (forall u1 uuid, u2 uuid :: has(result$1, u1) && has(result$1, u2) && u1 != u2 ==> result$1[u1] != result$1[u2])
+//@   loop 2 invariant ctx: old(has(deref(a), uid)) && aTagMap == old(deref(a)[uid]) && visited$1[uid] && bTagMap == old(deref(b)[uid])
+//@   loop 2 invariant frame_a: frameOuter(a) && frameInner(a)
+//@   loop 2 invariant frame_b: frameOuter(b) && frameInner(b)
+//@   loop 1 invariant filled_tag: forall u uuid :: has(result$1, u) ==> has(result$1[u], pickTag(dom(result$1[u])))
+//@   loop 1 invariant filled_iv: forall u uuid, t gomysql.Tag :: has(result$1, u) && has(result$1[u], t) ==> len(result$1[u][t]) > 0 && ivNorm(result$1[u][t]) && ivHas(result$1[u][t], result$1[u][t][0].Start)
+//@   loop 2 invariant filled_tag: forall u uuid :: has(result$1, u) ==> has(result$1[u], pickTag(dom(result$1[u])))
+//@   loop 2 invariant filled_iv: forall u uuid, t gomysql.Tag :: has(result$1, u) && has(result$1[u], t) ==> len(result$1[u][t]) > 0 && ivNorm(result$1[u][t]) && ivHas(result$1[u][t], result$1[u][t][0].Start)
+//@   ensures C13.set_minus [C13]: result != nil && (forall u uuid, t gomysql.Tag, x int :: has3(result, u, t, x) <==> old(has3(a, u, t, x) && !has3(b, u, t, x)))
+//@   ensures C13.set_minus_filled_tag [C13]: forall u uuid :: has(deref(result), u) ==> deref(result)[u] != nil && (exists t gomysql.Tag :: has(deref(result)[u], t))
+//@   ensures C13.set_minus_filled_iv [C13]: forall u uuid, t gomysql.Tag :: has(deref(result), u) && has(deref(result)[u], t) ==> len(deref(result)[u][t]) > 0 && ivNorm(deref(result)[u][t]) && ivHas(deref(result)[u][t], deref(result)[u][t][0].Start)
+//@   ensures C13.set_minus_args_kept [C13]: frameOuter(a) && frameInner(a) && frameOuter(b) && frameInner(b)
+//@   ensures args_norm_a [inv]: setNorm(a)
+//@   ensures args_norm_b [inv]: setNorm(b)
+//@   ensures args_alive [inv]: innerOld(a) && innerOld(b)
